@@ -1,8 +1,220 @@
 import Driver.Util
-/-! Line-protocol driver for C15 (not built yet). -/
+import GqlgenVerif.Model.Apq
+/-!
+Line-protocol driver for C15 (stateful: `tab` lines fill the text table the later lines refer to).
+
+  tab <id> <hex text> <sha> <valid 0/1>          → ok
+  run <cache> <req> <req> …                      → <obs> <obs> …\t<final contents>
+  chk <cache> <reqs>\t<obs …>\t<contents>        → ok | violates:<what> | unparsable:<token>
+
+The model is instantiated with Text := Nat (the text id; the empty query is `none`), Hash := String,
+H := the table id ↦ real SHA-256 hex digest computed by the harness. Token formats: see
+go/harness/c15/main.go.
+-/
 namespace Driver.C15
-def step (_line : String) : String := "bad-op"
+open GqlgenVerif.Apq
+
+def dropS (s : String) (n : Nat) : String := String.ofList (s.toList.drop n)
+
+structure Entry where
+  id : Nat
+  sha : String
+  valid : Bool
+
+abbrev Tab := List Entry
+
+def hashOf (tb : Tab) (t : Nat) : String :=
+  match tb.find? (·.id == t) with
+  | some e => e.sha
+  | none => "?unknown-text-" ++ toString t
+
+def validOf (tb : Tab) (t : Nat) : Bool :=
+  match tb.find? (·.id == t) with
+  | some e => e.valid
+  | none => false
+
+def alias (tb : Tab) (h : String) : String :=
+  match tb.find? (·.sha == h) with
+  | some e => "#" ++ toString e.id
+  | none => "=" ++ (if h.isEmpty then "" else Driver.hex (Driver.bytesOf h))
+
+def parseHash (tb : Tab) (s : String) : Option String :=
+  if s.startsWith "#" then (dropS s 1).toNat?.map (hashOf tb)
+  else if s.startsWith "=" then
+    let r := dropS s 1
+    if r.isEmpty then some "" else (Driver.unhex r).map Driver.ascii
+  else none
+
+def parseText (s : String) : Option (Option Nat) :=
+  if s == "-" then some none
+  else if s.startsWith "?" then some (some (1000000 + s.length))   -- a text outside the table
+  else s.toNat?.map some
+
+def parseInt (s : String) : Option Int :=
+  if s.startsWith "-" then (dropS s 1).toNat?.map (fun n => -(n : Int)) else s.toNat?.map (fun n => (n : Int))
+
+def parseReq (tb : Tab) (tok : String) : Option (Req Nat String) :=
+  match tok.splitOn "/" with
+  | [q, e, _] =>
+    match parseText q with
+    | none => none
+    | some q =>
+      if e == "a" then some ⟨q, .absent⟩
+      else if e == "m" then some ⟨q, .malformed⟩
+      else match e.splitOn "," with
+        | [v, h] =>
+          match parseInt v, parseHash tb h with
+          | some v, some h => some ⟨q, .decoded v h⟩
+          | _, _ => none
+        | _ => none
+  | _ => none
+
+def parseReqs (tb : Tab) (s : String) : Option (List (Req Nat String)) :=
+  if s == "-" then some [] else (s.splitOn " ").mapM (parseReq tb)
+
+def showText : Option Nat → String
+  | none => "-"
+  | some t => toString t
+
+def showOut : Outcome Nat → String
+  | .run q => "run:" ++ showText q
+  | .invalidExt => "inv"
+  | .badVersion => "ver"
+  | .notFound => "nf"
+  | .mismatch => "mm"
+
+def showOp (tb : Tab) : Op Nat String → String
+  | .get h none => "G" ++ alias tb h ++ ":miss"
+  | .get h (some t) => "G" ++ alias tb h ++ ":" ++ toString t
+  | .add h t => "A" ++ alias tb h ++ ":" ++ toString t
+
+def showOps (tb : Tab) (ops : List (Op Nat String)) : String :=
+  if ops.isEmpty then "-" else ",".intercalate (ops.map (showOp tb))
+
+def showRes {σ : Type} (tb : Tab) (x : StepRes σ Nat String) : String :=
+  showOut x.out ++ "|x:" ++ showText (executed (validOf tb) x.out) ++ "|" ++ showOps tb x.ops
+
+/-- candidate keys the harness probes at the end: table hashes in order, then the literal hashes of the
+history in order of first appearance -/
+def candidates (tb : Tab) (rs : List (Req Nat String)) : List String :=
+  let lits := rs.filterMap (fun r => match r.ext with | .decoded _ h => some h | _ => none)
+  (tb.map (·.sha) ++ lits).eraseDups
+
+def showContents (tb : Tab) (view : String → Option Nat) (keys : List String) : String :=
+  let l := keys.filterMap (fun k => (view k).map (fun t => alias tb k ++ ">" ++ toString t))
+  if l.isEmpty then "-" else " ".intercalate l
+
+def trace {σ : Type} (tb : Tab) (C : CacheImpl σ Nat String) (view : σ → String → Option Nat) (s0 : σ)
+    (rs : List (Req Nat String)) : String :=
+  let (s, xs) := runAll (hashOf tb) C s0 rs
+  let obs := if xs.isEmpty then "-" else " ".intercalate (xs.map (showRes tb))
+  obs ++ "\t" ++ showContents tb (view s) (candidates tb rs)
+
+def runCache (tb : Tab) (kind : String) (rs : List (Req Nat String)) : String :=
+  if kind == "map" then trace tb mapCache mapView mapEmpty rs
+  else if kind == "no" then trace tb noCache noView () rs
+  else if kind.startsWith "lru" then
+    match (dropS kind 3).toNat? with
+    | some n => trace tb lruCache lruView (lruEmpty n) rs
+    | none => "bad-cache"
+  else "bad-cache"
+
+/-! ### spec evaluation on an observed trace -/
+
+def parseOut (s : String) : Option (Outcome Nat) :=
+  if s == "inv" then some .invalidExt
+  else if s == "ver" then some .badVersion
+  else if s == "nf" then some .notFound
+  else if s == "mm" then some .mismatch
+  else if s.startsWith "run:" then (parseText (dropS s 4)).map .run
+  else none
+
+def parseOp (tb : Tab) (s : String) : Option (Op Nat String) :=
+  let body := dropS s 1
+  match body.splitOn ":" with
+  | [h, v] =>
+    match parseHash tb h with
+    | none => none
+    | some h =>
+      if s.startsWith "G" then
+        if v == "miss" then some (.get h none) else (parseText v).bind (fun t => t.map (fun t => .get h (some t)))
+      else if s.startsWith "A" then (parseText v).bind (fun t => t.map (fun t => .add h t))
+      else none
+  | _ => none
+
+def parseObs (tb : Tab) (tok : String) : Except String (Obs Nat String) :=
+  match tok.splitOn "|" with
+  | [c, x, ops] =>
+    match parseOut c, (if x.startsWith "x:" then parseText (dropS x 2) else none),
+          (if ops == "-" then some [] else (ops.splitOn ",").mapM (parseOp tb)) with
+    | some o, some e, some ops => .ok ⟨o, e, ops⟩
+    | _, _, _ => .error tok
+  | _ => .error tok
+
+def parseContents (tb : Tab) (s : String) : Except String (List (String × Nat)) :=
+  if s == "-" then .ok [] else
+  (s.splitOn " ").mapM (fun p =>
+    match p.splitOn ">" with
+    | [h, t] =>
+      match parseHash tb h, t.toNat? with
+      | some h, some t => .ok (h, t)
+      | _, _ => .error p
+    | _ => .error p)
+
+/-- first failing position of the trace spec, for the replay -/
+def firstBad (H : Nat → String) : Nat → List (Nat × String) → List (Req Nat String) → List (Obs Nat String) → Option Nat
+  | _, _, [], [] => none
+  | i, sent, r :: rs, o :: os => if specReq H sent r o then firstBad H (i + 1) (sent ++ sentOf r) rs os else some i
+  | i, _, _, _ => some i
+
+def chk (tb : Tab) (rest : String) : String :=
+  match rest.splitOn "\t" with
+  | [head, obs, cont] =>
+    match head.splitOn " " with
+    | _kind :: toks =>
+      match parseReqs tb (" ".intercalate toks) with
+      | none => "unparsable:reqs"
+      | some rs =>
+        let os := if obs == "-" then .ok [] else (obs.splitOn " ").mapM (parseObs tb)
+        match os, parseContents tb cont with
+        | .error t, _ => "unparsable:" ++ t
+        | _, .error t => "unparsable:" ++ t
+        | .ok os, .ok cs =>
+          let H := hashOf tb
+          if specOk H rs os cs then "ok"
+          else match firstBad H 0 [] rs os with
+            | some i => "violates:request-" ++ toString i
+            | none => "violates:final-contents"
+    | [] => "unparsable:head"
+  | _ => "unparsable:fields"
+
+def stepLine (tb : Tab) (line : String) : Tab × String :=
+  if line.startsWith "tab " then
+    match line.splitOn " " with
+    | [_, id, _hex, sha, v] =>
+      match id.toNat? with
+      | some id => (tb ++ [⟨id, sha, v == "1"⟩], "ok")
+      | none => (tb, "bad-tab")
+    | _ => (tb, "bad-tab")
+  else if line.startsWith "run " then
+    match (dropS line 4).splitOn " " with
+    | kind :: toks =>
+      match parseReqs tb (if toks.isEmpty then "-" else " ".intercalate toks) with
+      | some rs => (tb, runCache tb kind rs)
+      | none => (tb, "bad-reqs")
+    | [] => (tb, "bad-run")
+  else if line.startsWith "chk " then (tb, chk tb (dropS line 4))
+  else (tb, "bad-op")
+
+partial def loop (h out : IO.FS.Stream) (tb : Tab) : IO Unit := do
+  let line ← h.getLine
+  if line.isEmpty then return ()
+  let l := if line.back == '\n' then String.ofList line.toList.dropLast else line
+  let (tb', o) := stepLine tb l
+  out.putStrLn o
+  loop h out tb'
+
 end Driver.C15
 
 def main : IO Unit := do
-  Driver.loop (← IO.getStdin) (← IO.getStdout) Driver.C15.step
+  Driver.C15.loop (← IO.getStdin) (← IO.getStdout) []
